@@ -16,6 +16,9 @@ type MapStore struct {
 	// fold keys > min+N-1 into min+N-1.
 	N      int
 	Lowest bool
+	// Folded records that some weight of this content's history was folded
+	// (so the true values behind it are no longer within alpha of their bins).
+	Folded bool
 }
 
 func NewMapStore() *MapStore { return &MapStore{M: map[int]float64{}} }
@@ -42,6 +45,7 @@ func (s *MapStore) fold() {
 		if lo >= edge {
 			return
 		}
+		s.Folded = true
 		var acc float64
 		for k, w := range s.M {
 			if k < edge {
@@ -55,6 +59,7 @@ func (s *MapStore) fold() {
 		if hi <= edge {
 			return
 		}
+		s.Folded = true
 		var acc float64
 		for k, w := range s.M {
 			if k > edge {
@@ -84,10 +89,13 @@ func (s *MapStore) MergeFrom(o *MapStore) {
 	for _, k := range o.Keys() {
 		s.M[k] += o.M[k]
 	}
+	if o.Folded {
+		s.Folded = true
+	}
 	s.fold()
 }
 
-func (s *MapStore) Clear() { s.M = map[int]float64{} }
+func (s *MapStore) Clear() { s.M = map[int]float64{}; s.Folded = false }
 
 func (s *MapStore) Scale(w float64) {
 	for k := range s.M {
@@ -100,6 +108,7 @@ func (s *MapStore) CopyInto(dst *MapStore) {
 	for k, w := range s.M {
 		dst.M[k] = w
 	}
+	dst.Folded = s.Folded
 	dst.fold()
 }
 
